@@ -604,15 +604,17 @@ def gen_cases(ctx):
                           "g": int(rng.integers(1, 4)), "case_seed": seed()})
     # designs
     for name in ["tfsobol", "scipysobol", "halton", "lhs", "raw", "raw"]:
-        for _ in range(5 * k):
-            cases.append({"lane": "design", "sampler": name, "n": int(rng.choice([1, 2, 3, 4, 8, 16])),
+        for j in range(5 * k):
+            # every sampler sees design sizes that are not powers of two (3, 6, 12) as well as 1 and powers of two
+            n_ = [3, 8, 6, 1, 12][j] if j < 5 else int(rng.choice([1, 2, 3, 4, 5, 6, 7, 8, 12, 16]))
+            cases.append({"lane": "design", "sampler": name, "n": n_,
                           "d": int(rng.integers(1, 8)), "binary": bool(name == "raw" and rng.random() < 0.4),
                           "case_seed": seed()})
     for name in ["tfsobol", "scipysobol", "halton", "lhs"]:
         for binary in (False, True):
-            for _ in range(2 * k):
+            for j in range(2 * k):
                 cases.append({"lane": "sampler", "sampler": name, "binary": binary,
-                              "n": int(rng.choice([1, 3, 4, 8, 16])), "d": int(rng.integers(1, 10))})
+                              "n": [3, 8][j] if j < 2 else int(rng.choice([1, 3, 4, 5, 6, 8, 12, 16])), "d": int(rng.integers(1, 10))})
     # hsic estimators
     for kernel in ["binary", "rbf", "sobolev"]:
         for _ in range(10 * k):
